@@ -670,6 +670,18 @@ def indent_from_gap(gap: str) -> int:
     return len(gap.rsplit("\n", 1)[-1])
 
 
+def own_line_trivia(items: list[Any]) -> list[Any]:
+    """Trivia that is rendered on lines of its own: no comment in it is inline."""
+    from nix_manipulator.expressions.comment import Comment
+
+    return [
+        item.model_copy(update={"inline": False})
+        if isinstance(item, Comment) and item.inline
+        else item
+        for item in items
+    ]
+
+
 def apply_trailing_trivia(rebuilt: str, after: list[Any], *, indent: int) -> str:
     """
     Append trailing trivia to a preformatted string.
@@ -685,13 +697,7 @@ def apply_trailing_trivia(rebuilt: str, after: list[Any], *, indent: int) -> str
         inline_comment = after[0].rebuild(indent=0)
         # Only one comment fits behind the code; a second end-of-line comment
         # (`v # a\n; # b`) goes on a line of its own, indented like one.
-        rest = [
-            item.model_copy(update={"inline": False})
-            if isinstance(item, Comment) and item.inline
-            else item
-            for item in after[1:]
-        ]
-        trailing = format_trivia(rest, indent=indent)
+        trailing = format_trivia(own_line_trivia(after[1:]), indent=indent)
         trailing = trim_trailing_layout_newline(after, trailing)
         return f"{rebuilt} {inline_comment}" + (f"\n{trailing}" if trailing else "")
 
